@@ -329,7 +329,7 @@ def canonical_type_problems(env, q, v, mkind, k):
     return out
 
 
-def py_check_structure(env, q, kind, W, chain, iter_elem):
+def py_check_structure(env, q, kind, W, chain, iter_elem, siblings=True):
     """cheap Python-level check of one chain (no writes): root identity, direction/qualifier, storage identity
     (vector roots) and the bit positions designated by _root + _ref_spec against the reference model."""
     problems = []
@@ -374,7 +374,7 @@ def py_check_structure(env, q, kind, W, chain, iter_elem):
     # sibling views must not affect each other: the view, its cast views and a second copy of the view are all
     # resolved, then each one in turn gets the in-place simplify() the backend applies when it formats a reference,
     # and all of them are resolved again
-    if iter_elem is None and model[0] != "Bit" and not problems:
+    if siblings and iter_elem is None and model[0] != "Bit" and not problems:
         try:
             sibs = [("view", v), ("view.unsigned", v.unsigned), ("view.signed", v.signed), ("view.bitvector", v.bitvector)]
             v2 = root
